@@ -698,6 +698,7 @@ func scenSigMut(rep *Report, tier string, seed int64) {
 			}
 			for _, h := range hs {
 				e := g.Batch(h, u, []fat2.Transaction{Transfer(u.FA(), fat2.PTickerPEG, fat2.AddressAmountTuple{Address: g.Users[0].FA(), Amount: 5})})
+				e.Timestamp = EntryTime(h)
 				_, err := fat2.NewTransactionBatch(e, int32(h))
 				rep.Count(fmt.Sprintf("sigmut:shipped-schedule:accepted=%v", err == nil))
 				rep.Case(fmt.Sprintf("shipped-schedule|after-v4=%v|accepted=%v", h > v4, err == nil), true)
